@@ -319,7 +319,7 @@ def obs_dict(c, var):
             fdt = r.dtype.fields[name][0]
             k = kind_of(fdt)
             col = np.asarray(r[name]).reshape(-1).tolist()
-            fields.append({"name": name, "kind": k if k[0] not in "SU" else k[0], "len": int(k[1:]) if k[0] in "SU" else 0,
+            fields.append({"name": name, "kind": k[0], "len": int(k[1:]) if k[0] in "SU" else 0,
                            "vals": [dict_code(k, e) for e in col]})
         return {"err": "none", "n": int(r.size) if r.ndim else 1, "fields": fields}
     except Exception as e:  # noqa
@@ -606,21 +606,22 @@ def seeded_chains(rng, n):
 # signatures, judging
 # ---------------------------------------------------------------------------------
 def struct_class(c):
+    """coarse structural class of a case: one defect -> few signatures"""
     fn = c["fn"]
     if fn in ("between", "outside"):
-        return "%s,%s" % (c["ty"], "empty" if not c["x"] else "%dd" % len(c["shape"]))
+        return c["ty"] + (",empty" if not c["x"] else "")
     if fn == "where1":
         return c["form"]
     if fn == "percentile":
-        return "%s,%s%s" % ("scalar_perc" if c["scalar"] else "list_perc", c["method"], ",get_ranges" if c["ranges"] else "")
+        return "scalar_perc" if c["scalar"] else "list_perc"
     if fn == "arrscl":
         ov = "+".join(n for n, f in (("arrmin", c["hasmin"]), ("arrmax", c["hasmax"])) if f) or "no_override"
-        return "%s,%s" % ("size1" if len(c["x"]) == 1 else "sizeN", ov if len(c["x"]) > 1 else "any_override")
+        return "size1" if len(c["x"]) == 1 else "sizeN," + ov
     if fn == "replicate":
-        return "%s,%s,%s" % (c["vk"], c["shform"], "dtype" if c["dt"] != "none" else "nodtype")
+        return "dtype" if c["dt"] != "none" else "nodtype"
     if fn == "combine":
         n = len(c["arrs"])
-        return "%s,%s,%s" % ("empty" if n == 0 else "one" if n == 1 else "many", "keep" if c["keep"] else "consume", c["form"])
+        return "%s,%s" % ("empty" if n == 0 else "one" if n == 1 else "many", "keep" if c["keep"] else "consume")
     if fn in ("dict2array", "dictlist2array"):
         first = {it["k"] for it in c["dicts"][0]} if c["dicts"] else set()
         if c["haskeys"]:
@@ -628,7 +629,7 @@ def struct_class(c):
             return "keys=missing" if ks - first else "keys=subset" if ks < first else "keys=all"
         return "sort" if c["sort"] else "plain"
     if fn == "strmatch":
-        return "empty" if not c["strs"] else "%dd" % len(c["shape"])
+        return "empty" if not c["strs"] else "nonempty"
     if fn == "grid":
         return "n>=2" if c["n"] >= 2 else "n<2"
     if fn == "dict_select":
@@ -690,7 +691,7 @@ def judge(ctx, store, recs, what, tally):
                               "%s result not allowed by Selection.tla: clause %s" % (ENTRY[c["fn"]], cl),
                               {"kind": "case", "c": c, "var": ref["var"], "observed": rec["obs"]})
             else:
-                ctx.violation("pipeline.%s|%s|%s" % (rec["op"]["op"], cl, "keep" if rec["op"]["keep"] else rec["op"]["ty"] or "any"),
+                ctx.violation("pipeline.%s|%s|%s" % (rec["op"]["op"], cl, ("keep" if rec["op"]["keep"] else "consume") if rec["op"]["op"] == "comb" else "any"),
                               "selection pipeline step not allowed by Selection.tla: clause %s" % cl,
                               {"kind": "chain", "ini": ref["ini"], "ops": ref["ops"], "var": ref["var"], "step": ref["step"],
                                "pre": rec["pre"], "op": rec["op"], "observed": rec["obs"]})
@@ -700,16 +701,19 @@ def judge(ctx, store, recs, what, tally):
 # ---------------------------------------------------------------------------------
 BOUNDS = {
     "quick":    dict(NV=5, WL=5, ML=3, PVals=4, Rich=False, PL=3, PV=3, PD=3, LeanFrom=1),
-    "thorough": dict(NV=7, WL=8, ML=4, PVals=4, Rich=True, PL=4, PV=3, PD=3, LeanFrom=1),
+    "thorough": dict(NV=7, WL=10, ML=5, PVals=3, Rich=True, PL=4, PV=3, PD=3, LeanFrom=1),
 }
 SEEDED = {"quick": (1500, 400), "thorough": (30000, 6000)}
-INVARIANTS = ["RefAccepted", "CorruptRejected", "Unconstrained", "Laws", "PipeConserved", "PipeStepLaws", "PipeRefAccepted"]
+INVARIANTS = ["RefAccepted", "CorruptRejected", "Unconstrained", "Laws", "PipeConserved", "PipeStepLaws", "PipeRefAccepted",
+              "MechConserves", "MechRefines"]
 
 
-def selftests(ctx, store):
-    """binding self-test: corrupted observations must be rejected, with the right clause; the originals accepted"""
+def selftests(ctx, store, rejected):
+    """binding self-test: corrupted observations must be rejected, with the right clause; the originals accepted.
+    Probes are taken among the records the trace specification accepted (a defective tree may leave none for a family:
+    that probe is skipped, but at least half of them must run)."""
     def find(pred):
-        return next(r for r in store.recs if pred(r))
+        return next((r for r in store.recs if r["id"] not in rejected and pred(r)), None)
 
     def mut(rec, fn):
         r = json.loads(json.dumps(rec))
@@ -730,26 +734,29 @@ def selftests(ctx, store):
               and all(len({it["t"] for d in r["c"]["dicts"] for it in d if it["k"] == k}) == 1 for k in [it["k"] for it in r["c"]["dicts"][0]]))
     st = find(lambda r: r["kind"] == "step" and r["op"]["op"] == "comb" and not r["op"]["keep"] and r["obs"]["err"] == "none")
     ss = find(lambda r: r["kind"] == "step" and r["op"]["op"] == "sel" and r["obs"]["err"] == "none" and r["obs"]["lst"][r["op"]["k"] - 1])
-    j = iv["c"]["x"].index(iv["c"]["lo"][0])
-    probes = [
-        (iv, None), (pc, None), (sc, None), (cb, None), (dl, None), (st, None), (ss, None),
-        (mut(iv, lambda o: o["val"].__setitem__(j, not o["val"][j])), "value:on_low_bound"),
-        (mut(pc, lambda o: o["idx"][0].pop()), "piece_below_first_cut"),
-        (mut(pc, lambda o: o["ranges"][1][0].update(n=o["ranges"][1][0]["n"] + o["ranges"][1][0]["d"])), "range_cut"),
-        (mut(sc, lambda o: o["val"][0].update(k="off")), "value"),
-        (mut(sc, lambda o: o.update(frame=False)), "input_modified"),
-        (mut(cb, lambda o: o.update(rows=o["rows"][1:] + o["rows"][:1])), "rows"),
-        (mut(cb, lambda o: o.update(listlen=len(cb["c"]["arrs"]))), "list_not_consumed"),
-        (mut(dl, lambda o: o.update(fields=o["fields"][1:] + o["fields"][:1])), "field_order"),
-        (mut(st, lambda o: o.update(lst=st["pre"] + o["lst"])), "list_not_consumed"),
-        (mut(ss, lambda o: o["lst"][ss["op"]["k"] - 1].pop()), "selected_rows"),
+    plan = [
+        (iv, lambda o: o["val"].__setitem__(iv["c"]["x"].index(iv["c"]["lo"][0]), not o["val"][iv["c"]["x"].index(iv["c"]["lo"][0])]), "value:on_low_bound"),
+        (pc, lambda o: o["idx"][0].pop(), "piece_below_first_cut"),
+        (pc, lambda o: o["ranges"][1][0].update(n=o["ranges"][1][0]["n"] + o["ranges"][1][0]["d"]), "range_cut"),
+        (sc, lambda o: o["val"][0].update(k="off"), "value"),
+        (sc, lambda o: o.update(frame=False), "input_modified"),
+        (cb, lambda o: o.update(rows=o["rows"][1:] + o["rows"][:1]), "rows"),
+        (cb, lambda o: o.update(listlen=len(cb["c"]["arrs"])), "list_not_consumed"),
+        (dl, lambda o: o.update(fields=o["fields"][1:] + o["fields"][:1]), "field_order"),
+        (st, lambda o: o.update(lst=st["pre"] + o["lst"]), "list_not_consumed"),
+        (ss, lambda o: o["lst"][ss["op"]["k"] - 1].pop(), "selected_rows"),
     ]
+    probes = [(r, None) for r in (iv, pc, sc, cb, dl, st, ss) if r is not None]
+    probes += [(mut(r, fn), want) for r, fn, want in plan if r is not None]
+    if sum(1 for _, w in probes if w) < len(plan) // 2:
+        raise MachineryError("binding self-test: too few accepted records to probe (%d of %d)" % (sum(1 for _, w in probes if w), len(plan)))
     recs = [dict(r, id=i + 1) for i, (r, _) in enumerate(probes)]
     saved = ctx.traces
     rej = tracecheck.validate(ctx, "SelectionTrace.tla", recs, what="self-test: corrupted observations rejected", workers=1)
     ctx.traces = saved
     for i, (r, want) in enumerate(probes):
         got = rej.get(i + 1, [])
+        got = [g for g in got if not g.startswith("nongating/")]
         if (want is None and got) or (want is not None and got != [want]):
             raise MachineryError("binding self-test failed: probe %d gave %s, expected %s" % (i + 1, got, want))
     # the projections themselves: a changed data byte loses the row token / the lattice point
@@ -763,10 +770,14 @@ def selftests(ctx, store):
 
 def run(ctx):
     B = BOUNDS[ctx.tier]
-    consts = dict(B, DoExport=False)
+    consts = dict(B, Fams=set(), DoExport=False)
     # 1. design level (laws, reference accepted, corruptions rejected; pipeline invariants) in parallel with
     # 2. the export of every case and every pipeline behaviour
-    with ThreadPoolExecutor(2) as ex:
+    with ThreadPoolExecutor(3) as ex:
+        # self-test of the mechanism model: its exception point (array popped, assignment raised) must be reachable
+        f0 = ex.submit(ctx.tlc, "SelectionMC.tla", what="self-test: the exception point of the consuming loop loses the popped array",
+                       cfg_text=cfg(constants=dict(consts, Fams={"combine"}, PL=1, PV=1, PD=0), invariants=["MechRaiseKeepsRows"], view="LastView"),
+                       workers=1, coverage=False, allow_violation=True, timeout=600)
         f1 = ex.submit(ctx.tlc, "SelectionMC.tla", what="laws + reference accepted + corruptions rejected + pipeline invariants",
                        cfg_text=cfg(constants=consts, invariants=INVARIANTS, view="LastView"), workers=8, coverage=False, timeout=3000)
         f2 = ex.submit(ctx.tlc, "SelectionMC.tla", what="export cases and pipeline behaviours",
@@ -795,28 +806,33 @@ def run(ctx):
         store.add_cases(seeded_cases(rng, ncase), var0=rng.randrange(0, 1 << 16))
         store.add_chains([(v + rng.randrange(0, 8), ini, ops) for v, ini, ops in seeded_chains(rng, nchain)])
         f1.result()
+        if "MechRaiseKeepsRows" not in f0.result().violated:
+            raise MachineryError("self-test failed: the exception point of combine_arrlist's consuming loop was not reached in the model")
     # 4. code -> spec: every distinct record is judged by the trace specification
-    judge(ctx, store, store.recs, "judge every executed case and pipeline step (SelectionTrace)", tally)
+    rejects = judge(ctx, store, store.recs, "judge every executed case and pipeline step (SelectionTrace)", tally)
     ctx.evaluations += store.calls
     ctx.nontrivial_n += len(store.recs)
     # 5. self-tests
-    selftests(ctx, store)
+    selftests(ctx, store, set(rejects))
     ctx.rule = ("every case of 13 function families over the bounded alphabets of SelectionMC.tla (interval tests: every lattice value "
                 "0..%d against every pair of bounds, 4 documented + 2 undocumented types, 1-d / 2-d / empty, scalar and array bounds; "
                 "where1: every boolean array of length <= %d; select_percentile: every array of length <= %d over %d values x %d "
-                "percentile sets in eighths of 100 x methods; arrscl: every array of length <= %d over 4 values x 6 target ranges x "
+                "percentile sets in eighths of 100 x methods; arrscl: every array of length <= %d over 4 values x %d target ranges x "
                 "9 arrmin/arrmax settings; replicate, combine_arrlist (every list of <= %d arrays from a pool of 6), dict2array, "
                 "dictlist2array, strmatch (48 patterns x every string of length <= 3), make_xy_grid, dict_select, collect_keyby) "
                 "and every behaviour of %d pipeline steps from every initial array of length <= %d over %d values - %d cases and %d "
                 "behaviours exported by TLC, each executed against the real code on one of %d dyadic lattices; plus %d seeded larger "
                 "cases and %d seeded chains of 3..6 steps; counted: %d real calls / steps, of which the distinct (case | pre-state, "
                 "operation, observation) records are the distinct non-trivial cases" %
-                (B["NV"], B["WL"], B["ML"], B["PVals"], 16 if B["Rich"] else 11, B["ML"], 4 if B["Rich"] else 3, B["PD"], B["PL"], B["PV"],
+                (B["NV"], B["WL"], B["ML"], B["PVals"], 16 if B["Rich"] else 11, B["ML"], 6 if B["Rich"] else 4, 4 if B["Rich"] else 3, B["PD"], B["PL"], B["PV"],
                  len(cases), len(chains), len(CONC), ncase, nchain, store.calls))
     ctx.exhaustive = True
     ctx.note(bounds=B, exported_cases=len(cases), exported_behaviours=len(chains), records_from_model=nmodel,
              records_total=len(store.recs), seeded_cases=ncase, seeded_chains=nchain,
              nongating_undocumented_forms_not_matching=tally,
+             lead_not_a_verdict="combine_arrlist(keep=False): when the assignment of an array raises (row types that cannot be cast), that array "
+                                "has already been popped from the caller's list and is in neither the list nor a result (model: MechRaiseKeepsRows "
+                                "is violated; the real code agrees with the mechanism model on every mixed-type list unless tallied above)",
              cases_per_family={f: sum(1 for c in cases if c["fn"] == f) for f in FAMILIES})
     ctx.assumptions = [
         "dyadic lattices: comparisons, np.percentile's interpolation at eighths of 100 and the projections back are exact in binary64; "
